@@ -235,6 +235,13 @@ def rule_null_space(repo: Repo, rep: Report) -> int:
         # null-space basis construction from the reduced form
         body = {unparse(s) for s in stmts_of(fi.body)}
         needed = ["null_space[row_idx, free_col] = 1", "null_space[row_idx, pivot_col] = 1", "free_columns = [j for j in range(n) if j not in pivots]"]
+        # recognised wrong idiom: the pivot part of a basis vector written to a PREFIX of the columns
+        for st_ in ast.walk(fi.node):
+            if isinstance(st_, ast.Assign) and isinstance(st_.targets[0], ast.Subscript) and isinstance(st_.targets[0].value, ast.Name) and st_.targets[0].value.id == "null_space" and isinstance(st_.targets[0].slice, ast.Tuple) and len(st_.targets[0].slice.elts) == 2:
+                col = st_.targets[0].slice.elts[1]
+                if isinstance(col, ast.Slice) and (col.upper is not None or col.lower is not None) and "reduced" in unparse(st_.value):
+                    rep.violation("VERIFIED-RETURN", fi, st_, f"the pivot entries of the null-space basis are written to the column range `{unparse(col)}` instead of to the pivot columns themselves: this is only right when the pivots are the first `rank` columns; for a generator whose leading k x k block is singular (Reed-Muller, permuted information sets) G.H^T != 0", node=st_)
+                    n += 1
         for t in needed:
             rep.expect(t in body, "VERIFIED-RETURN", fi, f"null-space basis step `{t}`", "one basis vector per free column: 1 at the free column and at the pivots whose row has a 1 there", "the null-space basis is not built from the reduced row echelon form")
             n += 1
